@@ -10,7 +10,7 @@
 (* clause that does not hold prints <<"REJECT", id, event index, clause>>; *)
 (* all traces are judged in one TLC run (tid chosen in Init).              *)
 (***************************************************************************)
-EXTENDS X690, Json, IOUtils, TLCExt
+EXTENDS WellTyped, Json, IOUtils, TLCExt
 
 Cases == ndJsonDeserialize(IOEnv.TRACE_FILE)
 
@@ -148,6 +148,18 @@ JudgeOpen(t, i, T, v, e) ==
                         THEN Check(t, i, "RawOctetsDiffer", e.fields[j].v.o = Enc(LibMode(e), 0, e.Tin, e.vin[j]))
                         ELSE TRUE)
 
+(* whatever a guided decoder accepts is a complete, re-encodable value of the type (C10) *)
+JudgeWT(t, i, T, v, e) ==
+  IF e.st = "crash" THEN Check(t, i, "Crash", FALSE)
+  ELSE IF e.st # "ok" THEN TRUE                       \* refusing is always allowed
+  ELSE IF e.proj # "ok" THEN Check(t, i, "NotAValue", FALSE)
+  ELSE /\ Check(t, i, "IllTyped", WT(T, e.v))
+       /\ Check(t, i, "ReencodeRefused", e.reenc_st = "ok")
+       /\ (IF e.reenc_st = "ok"
+           THEN /\ Check(t, i, "RedecodeRefused", e.redec_st = "ok")
+                /\ (IF e.redec_st = "ok" THEN Check(t, i, "FixpointDiffers", Norm(T, e.v2) = Norm(T, e.v)) ELSE TRUE)
+           ELSE TRUE)
+
 (* several decoders accepted the same input: same abstract value (C02) *)
 JudgeAgree(t, i, T, v, e) ==
   Check(t, i, "Disagree", \A a, b \in 1..Len(e.vs) : Norm(T, e.vs[a]) = Norm(T, e.vs[b]))
@@ -159,6 +171,7 @@ Judge(t, i) ==
     [] e.op = "decu" -> JudgeDecU(t, i, c.T, c.v, e)
     [] e.op = "agree" -> JudgeAgree(t, i, c.T, c.v, e)
     [] e.op = "open" -> JudgeOpen(t, i, c.T, c.v, e)
+    [] e.op = "wt" -> JudgeWT(t, i, c.T, c.v, e)
     [] e.op = "same" -> Check(t, i, "Disagree", e.a = e.b)      \* two library paths, same octets (C17)
     [] e.op = "pfxs" -> JudgePfxs(t, i, c.T, c.v, e)
     [] e.op = "tags" -> JudgeTags(t, i, c.T, c.v, e)
